@@ -9,6 +9,28 @@ import json, subprocess, os, re, sys
 PRIVATE_AFTER_UNLINK = {('qlisttbl_removeobj', 'this')}
 ALLOCATORS = {'malloc', 'calloc', 'realloc', 'strdup', 'qmemdup', 'qstrdupf'}
 
+# The Q_MUTEX_* macros of src/internal/qinternal.h are read by hand (DESIGN 5.14): ENTER returns only after a successful
+# trylock and then counts one level up; LEAVE counts one level down and unlocks; the waiting side's "force unlock" cannot
+# release a recursive mutex it does not own.  The hand reading is valid for exactly these texts (whitespace-normalised
+# SHA-256 prefixes); any edit of a macro makes the obligation `mutex_macros_reviewed = true` fail until it is re-read.
+MACRO_FINGERPRINTS = {
+    'Q_MUTEX_NEW': '822d182a11c2d920', 'Q_MUTEX_LEAVE': '1f54fb7652122a89', 'Q_MUTEX_ENTER': '80b95c83cab5014b',
+    'Q_MUTEX_DESTROY': 'ceb7faa28eb96e7e', 'MAX_MUTEX_LOCK_WAIT': '54a5c973969071a1',
+}
+
+
+def macro_text(src, name):
+    i = src.find('#define ' + name)
+    if i < 0:
+        return None
+    lines = []
+    for l in src[i:].split('\n'):
+        lines.append(l)
+        if not l.rstrip().endswith('\\'):
+            break
+    return re.sub(r'\s+', ' ', ' '.join(x.rstrip('\\').strip() for x in lines))
+
+
 FILES = ['containers/qtreetbl.c', 'containers/qhashtbl.c', 'containers/qlisttbl.c', 'containers/qlist.c',
          'containers/qvector.c', 'containers/qqueue.c', 'containers/qstack.c', 'containers/qgrow.c', 'extensions/qlog.c']
 
@@ -60,6 +82,7 @@ class Fn:
         self.term = None
         self.calls = set()
         self.fresh = set()
+        self.tainted = set()
 
 
 class Translator:
@@ -90,6 +113,7 @@ class Translator:
                 self.statics[(file, d['name'])] = uname
             self.scan_assignments(body[0], f)
             f.fresh = self.fresh_locals(body[0])
+            f.tainted = self.tainted_locals(body[0], params[0][0] if params else None, f.fresh)
 
     def fresh_locals(self, body):
         """local pointer variables every assignment of which is the result of an allocation call (or NULL)"""
@@ -120,6 +144,52 @@ class Translator:
         walk(body)
         return cand - bad
 
+    def tainted_locals(self, body, param, fresh):
+        """local pointer variables that may point into container state: assigned (anywhere in the function) from an
+        expression that reads a field of the container or of a node, copies another such pointer, or is the result of an
+        internal helper that hands out node/buffer pointers"""
+        assigns = []      # (var, rhs)
+        def walk(n):
+            k = n.get('kind')
+            if k == 'VarDecl' and '*' in n.get('type', {}).get('qualType', ''):
+                init = [c for c in n.get('inner', []) if c.get('kind')]
+                if init:
+                    assigns.append((n.get('name'), init[-1]))
+            if k == 'BinaryOperator' and n.get('opcode') == '=':
+                lhs = strip(n['inner'][0])
+                if lhs.get('kind') == 'DeclRefExpr' and '*' in lhs.get('type', {}).get('qualType', ''):
+                    assigns.append((lhs['referencedDecl'].get('name'), n['inner'][1]))
+            for c in n.get('inner', []):
+                walk(c)
+        walk(body)
+        tainted = set()
+        def derives(e):
+            k = e.get('kind')
+            if k == 'MemberExpr':
+                base = strip(e['inner'][0])
+                if base.get('kind') == 'DeclRefExpr':
+                    nm = base['referencedDecl'].get('name')
+                    if nm == param or nm in tainted:
+                        return True
+                    if nm in fresh:
+                        return False
+            if k == 'DeclRefExpr' and e.get('referencedDecl', {}).get('name') in tainted:
+                return True
+            if k == 'CallExpr':
+                c, _ = callee_name(e)
+                # the result of a call points into the container only for the internal helpers that hand out node or
+                # buffer pointers; what a public accessor returns is either a private copy or (newmem=false) the caller's
+                # responsibility; the arguments of the call do not matter for where its result points
+                return c in ('get_obj', 'find_obj', 'get_at', 'findobj', 'find_min', 'find_max')
+            return any(derives(c) for c in e.get('inner', []))
+        changed = True
+        while changed:
+            changed = False
+            for v, rhs in assigns:
+                if v not in tainted and v not in fresh and derives(rhs):
+                    tainted.add(v); changed = True
+        return tainted
+
     returns_fresh = {'newobj', 'new_obj'}     # static constructors of node objects: every return is a block they allocated
 
     def scan_assignments(self, n, f):
@@ -146,9 +216,24 @@ class Translator:
     def expr(self, n, fn):
         out = []
         k = n.get('kind')
+        if k == 'UnaryOperator' and n.get('opcode') == '*' or k == 'ArraySubscriptExpr':
+            b = strip(n['inner'][0])
+            if b.get('kind') == 'DeclRefExpr' and b['referencedDecl'].get('name') in fn.tainted \
+               and (fn.name, b['referencedDecl'].get('name')) not in PRIVATE_AFTER_UNLINK:
+                out.append(('Deref', '*' + b['referencedDecl'].get('name')))
         if k == 'CallExpr':
             for a in n['inner'][1:]:
                 out += self.expr(a, fn)
+                # a pointer into container state handed to another function (memcpy, strlen, free, ...) is dereferenced there
+                def mentions_tainted(e):
+                    if e.get('kind') == 'DeclRefExpr':
+                        nm = e.get('referencedDecl', {}).get('name')
+                        return nm in fn.tainted and (fn.name, nm) not in PRIVATE_AFTER_UNLINK
+                    if e.get('kind') in ('ImplicitCastExpr', 'ParenExpr', 'CStyleCastExpr', 'BinaryOperator'):
+                        return any(mentions_tainted(c) for c in e.get('inner', []))
+                    return False
+                if mentions_tainted(a):
+                    out.append(('Deref', 'arg'))
             cname, bt = callee_name(n)
             target = self.resolve(cname, bt)
             fnode = strip(n['inner'][0])
@@ -420,6 +505,12 @@ def generate(repo):
     out.append("   lockable containers; constructors and free() (exclusive access by contract), size()/debug()/check() (plain reads outside")
     out.append("   the property's operation mix), getnext() (the caller holds the lock during a walk) are not in the list *)")
     out.append("Definition c13_api : list (string * stmt) := [%s]." % '; '.join('("%s", f_%s)' % (n, n) for n in c13))
+    import hashlib
+    hdr = open(os.path.join(repo, 'src/internal/qinternal.h')).read()
+    changed_macros = [n for n, fp in MACRO_FINGERPRINTS.items()
+                      if macro_text(hdr, n) is None or hashlib.sha256(macro_text(hdr, n).encode()).hexdigest()[:16] != fp]
+    out.append("(* do the Q_MUTEX_* macros still have the text whose meaning was read by hand?  changed: %s *)" % (', '.join(changed_macros) or 'none'))
+    out.append("Definition mutex_macros_reviewed : bool := %s." % ('false' if changed_macros else 'true'))
     out.append("Definition lock_users : list string := [%s]." % '; '.join('"%s"' % n for n in sorted(locky) if n in pub))
     out.append("Definition mutable_fields : list (string * string) := [%s]." % '; '.join('("%s", "%s")' % m for m in sorted(mutable)))
     return {'LockAst.v': '\n'.join(out) + '\n'}
